@@ -173,15 +173,20 @@ elab "ifsplit1" : tactic => withMainContext do
   let cond := c.getArg! 1
   let (s1, s2) ← g.byCases cond `hif
   let h := mkIdent `hif
-  let simpset ← `(tactic| try simp only [$h:ident, if_true, if_false, ite_true, ite_false, not_true_eq_false,
+  -- the condition is rewritten as a proposition (`c = True` / `c = False`), never used as an equation from
+  -- left to right: `start = start + 0` would rewrite for ever
+  let simpsetPos ← `(tactic| try simp only [eq_true $h, if_true, if_false, ite_true, ite_false, not_true_eq_false,
+        not_false_eq_true, true_and, and_true, false_and, and_false, true_or, or_true, false_or, or_false,
+        decide_true, decide_false, Bool.false_eq_true])
+  let simpsetNeg ← `(tactic| try simp only [eq_false $h, if_true, if_false, ite_true, ite_false, not_true_eq_false,
         not_false_eq_true, true_and, and_true, false_and, and_false, true_or, or_true, false_or, or_false,
         decide_true, decide_false, Bool.false_eq_true])
   let tacPos ← `(tactic| first
     | (exfalso; omega)          -- a branch the arithmetic facts already exclude
-    | ((try simp only [if_pos $h]); $simpset))
+    | ((try simp only [if_pos $h]); $simpsetPos))
   let tacNeg ← `(tactic| first
     | (exfalso; omega)
-    | ((try simp only [if_neg $h]); $simpset))
+    | ((try simp only [if_neg $h]); $simpsetNeg))
   let gs1 ← evalTacticAt tacPos s1.mvarId
   let gs2 ← evalTacticAt tacNeg s2.mvarId
   -- progress check: the condition must be gone from the `if`s of the new goals (else `repeat'` would loop)
